@@ -22,7 +22,9 @@ CONFIGS["C28"] = dict(
     det_seeds=32,
     rule="seeded histories of add/find/delete/purge/purge-local/set-expiration/sweep/size/time-advance over 2 cache "
          "classes x 2-3 keys, 1-4 client tasks interleaved at every lock acquisition by the seeded scheduler, real "
-         "sweeper goroutines on the fake clock; non-trivial = history with >=3 recorded operations; distinct = "
+         "sweeper goroutines on the fake clock; one run in four ends with a sweep-race scenario (an expired, not yet swept item; a "
+         "sweep of its class concurrent with a fresh Add and lookups of the same key); in two thirds of the runs every mutex "
+         "release is a scheduling point too; non-trivial = history with >=3 recorded operations; distinct = "
          "distinct hash of (scheduler decision sequence, observed history)",
     real=["internal/caches (all of it, incl. background expire goroutines)", "internal/cli/settings", "internal/cli/ui"],
     stubbed=["time: testing/synctest fake clock", "sync: scheduling shim over the real primitives"],
